@@ -26,6 +26,7 @@
 #include <gmp.h>
 #include "givaromm.h"
 #include "givarray0.h"
+#include "givref_count.h"
 #include "givinteger.h"
 #include "givrational.h"
 #include <recint/recint.h>
@@ -258,11 +259,11 @@ template <class T> struct World {
     }
 };
 
-static bool on_free_list(const void* data) {
-    int idx = header_index(data);
-    if (idx < 0 || idx >= 512) return false;
-    long guard = 0;
-    for (void* b = tabfree_head(idx); b; b = next_free(b)) { if ((const char*) b + HDR == (const char*) data) return true; if (++guard > 100000) return true; }
+static bool on_free_list(const void* data) {      // data = the data field of a block; every list is searched (a released block's header holds a link)
+    for (int idx = 0; idx < 512; ++idx) {
+        long guard = 0;
+        for (void* b = tabfree_head(idx); b; b = next_free(b)) { if ((const char*) b + HDR == (const char*) data) return true; if (++guard > 100000) return true; }
+    }
     return false;
 }
 // blocks handed out by the pool and not returned, relative to the baseline taken at the start of a command:
@@ -419,6 +420,51 @@ static std::string cmd_sb(const std::vector<std::string>& toks) {
     return out.str();
 }
 
+// ---------------------------------------------------------------- GivMMRefCount (reference count in data[0] of the block)
+// rc op...: a<sz> d<k> s<j>,<k> i<k> c<k> g<k> r<k>,<old>,<new> n<new> (resize of a null pointer) ; slots hold user pointers
+static std::string cmd_rc(const std::vector<std::string>& toks) {
+    std::vector<void*> slots; std::vector<size_t> fillsz; std::ostringstream out;
+    for (size_t i = 0; i < toks.size(); ++i) {
+        const std::string& t = toks[i]; long v[3] = {0, 0, 0}; int n = 0; std::stringstream ss(t.substr(1)); std::string part;
+        while (std::getline(ss, part, ',') && n < 3) v[n++] = atol(part.c_str());
+        if (t[0] == 'a') {
+            void* p = GivMMRefCount::allocate((size_t) v[0]);
+            memset(p, 0x40 + (int) (slots.size() % 50), (size_t) v[0]);
+            slots.push_back(p); fillsz.push_back((size_t) v[0]);
+            out << addr_id((char*) p - 8) << "/" << header_index((char*) p - 8) << "/" << GivMMRefCount::getrc(p) << " ";
+        } else if (t[0] == 'd') {
+            void* p = slots[v[0]]; GivMMRefCount::desallocate(p);
+            out << "d" << (on_free_list((char*) p - 8) ? 1 : 0) << " ";
+        } else if (t[0] == 's') {
+            void* old = slots[v[0]];
+            void* r = GivMMRefCount::assign(&slots[v[0]], slots[v[1]]);
+            out << "s" << (r == slots[v[1]] && slots[v[0]] == slots[v[1]] ? "=" : "!") << GivMMRefCount::getrc(r) << "," << (old && on_free_list((char*) old - 8) ? 1 : 0) << " ";
+        } else if (t[0] == 'i') { out << "i" << GivMMRefCount::incrc(slots[v[0]]) << " "; }
+        else if (t[0] == 'c') { out << "c" << GivMMRefCount::decrc(slots[v[0]]) << " "; }
+        else if (t[0] == 'g') { out << "g" << GivMMRefCount::getrc(slots[v[0]]) << " "; }
+        else if (t[0] == 'r' || t[0] == 'n') {
+            void* src = t[0] == 'n' ? 0 : slots[v[0]];
+            size_t olds = t[0] == 'n' ? 0 : (size_t) v[1], news = t[0] == 'n' ? (size_t) v[0] : (size_t) v[2];
+            unsigned char keep[64]; size_t m = std::min(std::min(olds, news), (size_t) 64);
+            if (src) memcpy(keep, src, m);
+            void* q = GivMMRefCount::resize(src, olds, news);
+            bool same = src && memcmp(keep, q, m) == 0;
+            slots.push_back(q); fillsz.push_back(news);
+            out << addr_id((char*) q - 8) << "/" << header_index((char*) q - 8) << "/" << GivMMRefCount::getrc(q) << (src ? (same ? "/ok" : "/BAD") : "/new")
+                << "," << (src && on_free_list((char*) src - 8) ? 1 : 0) << " ";
+        }
+    }
+    return out.str();
+}
+// RefCounter (givref_count.h)
+static std::string cmd_refcounter() {
+    std::ostringstream out;
+    RefCounter a, b(5);
+    out << a.val() << " " << b.getvalue() << " " << a.incr() << " " << a.incr() << " " << a.decr() << " " << b.decr() << " ";
+    b.refvalue() = 9; out << b.val() << " " << a.val();
+    return out.str();
+}
+
 // ---------------------------------------------------------------- GMP allocation balance
 static long g_gmp_out = 0;
 static void* c_alloc(size_t n) { ++g_gmp_out; return malloc(n); }
@@ -485,6 +531,13 @@ int main() {
             std::vector<std::string> pre(t.begin() + 7, t.end());
             r = es == 4 ? cmd_enum<int>(fx, addr, nh, sizes, lmax, pre) : cmd_enum<Integer>(fx, addr, nh, sizes, lmax, pre);
         } else if (t[0] == "alloc" && t.size() >= 2) { r = cmd_alloc(t[1] == "1", std::vector<std::string>(t.begin() + 2, t.end())); }
+        else if (t[0] == "rc") { r = cmd_rc(std::vector<std::string>(t.begin() + 1, t.end())); }
+        else if (t[0] == "refcounter") { r = cmd_refcounter(); }
+        else if (t[0] == "rcnull") {    // GivMMRefCount::resize(0, 0, 16) on a recycled block whose data[0] is not 1
+            void* f = GivMMFreeList::allocate(24); memset(f, 0x77, 24); GivMMFreeList::desallocate(f);
+            void* p = GivMMRefCount::resize(0, 0, 16);
+            std::ostringstream o; o << "rc=" << GivMMRefCount::getrc(p); r = o.str();
+        }
         else if (t[0] == "sb") { r = cmd_sb(std::vector<std::string>(t.begin() + 1, t.end())); }
         else if (t[0] == "leak") { r = cmd_leak(); }
         else if (t[0] == "conv") { r = cmd_conv(std::vector<std::string>(t.begin() + 1, t.end())); }
